@@ -198,7 +198,7 @@ func evalBuilt(r *ev.Run, keys []ech.Key, l layout, b echx.Built, tag string) {
 	}
 	stream := b.Outer.Record()
 	res := echx.Feed(stream, keys)
-	replay := map[string]any{"layout": l, "outer_record": echx.Hex(stream), "encoded_inner": echx.Hex(b.EncodedInner)}
+	replay := map[string]any{"layout": l, "stream": echx.Hex(stream), "encoded_inner": echx.Hex(b.EncodedInner), "keys": echx.KeysDoc(keys)}
 	r.Add("transitions", 1)
 	switch {
 	case res.Panic != nil:
